@@ -309,7 +309,16 @@ func (e *Exec) envPatternIntrinsic(fn *ssa.Function, name string) Intrinsic {
 	}
 	// text rendering of protobuf messages (reflection based): an opaque string, only ever used for events and logs
 	switch name {
-	case "github.com/cosmos/gogoproto/proto.CompactTextString", "github.com/cosmos/gogoproto/proto.MarshalTextString":
+	case "(github.com/cosmos/cosmos-sdk/types.Coins).String", "(github.com/cosmos/cosmos-sdk/types.Coin).String":
+		// coins with symbolic amounts render to an opaque string (events, logs, error texts); concrete ones natively
+		return func(e *Exec, st *State, fn *ssa.Function, args []Value, depth int) []Outcome {
+			if e.allConcrete(st, args[0], 0) {
+				return e.runBody(st, fn, args, depth)
+			}
+			return ret1(st, e.freshOpaqueStr("coins"))
+		}
+	case "github.com/cosmos/gogoproto/proto.CompactTextString", "github.com/cosmos/gogoproto/proto.MarshalTextString",
+		"(github.com/cosmos/cosmos-sdk/types.DecCoins).String", "(github.com/cosmos/cosmos-sdk/types.DecCoin).String":
 		return func(e *Exec, st *State, fn *ssa.Function, args []Value, depth int) []Outcome {
 			return ret1(st, e.freshOpaqueStr("prototext"))
 		}
@@ -467,3 +476,38 @@ func bigOne() *bigInt           { return new(bigInt).SetInt64(1) }
 func bigFromInt(i int64) *bigInt { return new(bigInt).SetInt64(i) }
 
 var _ = fmt.Sprintf
+
+// allConcrete reports whether every integer reachable from v (through aggregates, slices and pointers) is a constant.
+func (e *Exec) allConcrete(st *State, v Value, depth int) bool {
+	if depth > 12 {
+		return false
+	}
+	switch x := v.(type) {
+	case *Term:
+		return x.Op == OpConst || x.Op == OpBConst
+	case string, nil, float64:
+		return true
+	case *Agg:
+		for _, el := range x.Elems {
+			if !e.allConcrete(st, el, depth+1) {
+				return false
+			}
+		}
+		return true
+	case Slice:
+		for _, el := range e.sliceElems(st, x) {
+			if !e.allConcrete(st, el, depth+1) {
+				return false
+			}
+		}
+		return true
+	case Ptr:
+		if x.Obj == 0 {
+			return true
+		}
+		return e.allConcrete(st, e.load(st, x), depth+1)
+	case Iface:
+		return x.T == nil || e.allConcrete(st, x.V, depth+1)
+	}
+	return false
+}
